@@ -353,6 +353,11 @@ def st_analysis_case(draw, methods=('cycles', 'amp'), centers=('peak', 'trough')
     if method == 'amp':
         bk, th, routing = draw(st_amp_settings(band))
         amp_fk = (bk or {}).get('filter_kwargs')
+        if bk is not None and draw(st.integers(0, 5)) == 0:
+            # an options dict carried over from another recording: its own fs / f_range entries (documented keys of
+            # compute_burst_features) are replaced by the arguments of the call
+            bk['fs'] = fs * 2
+            bk['f_range'] = [f_lo * 0.5, f_hi * 0.5]
     elif thresholds:
         th = draw(st_thresholds_cycles())
         if draw(st.integers(0, 3)) == 0:
@@ -368,6 +373,8 @@ def st_analysis_case(draw, methods=('cycles', 'amp'), centers=('peak', 'trough')
     if draw(st.integers(0, 7)) == 0:
         # shortest recordings the filters accept: a handful of oscillations, tables of one to three rows
         n = draw(st.integers(max(need, int(4 * p_lo)), max(need, int(4 * p_lo)) + int(3 * p_lo)))
+        if draw(st.integers(0, 2)) > 0:
+            n = need - 8 + draw(st.sampled_from([1, 1, 1, 2, 3]))      # one to three samples longer than the longest filter involved
     fek = None
     bnd = None
     if boundary:
